@@ -168,6 +168,7 @@ MDA_CHOICES = [
     {"main": "MDAChain", "inner": "MDANewtonRaphson"},
     {"main": "MDAGaussSeidel", "inner": None},
     {"main": "MDAJacobi", "inner": None},
+    {"main": "MDAJacobi", "inner": None},  # (its input grammar holds the weak couplings too)
     {"main": "MDANewtonRaphson", "inner": None},
 ]
 
@@ -258,7 +259,8 @@ def formulation_cases(draw):
         "system": system,
         "grammar": draw(st.sampled_from(["SimpleGrammar", "SimpleGrammar", "SimpleGrammar", "JSONGrammar"])),
         "x": x, "dx": dx, "start": start, "ds": ds,
-        "mdf_keeps": [draw(st.booleans()) for _ in couplings],
+        "mdf_keeps": draw(st.sampled_from(["all", "all", "none", "mixed"]).flatmap(
+            lambda mode: st.just([mode == "all"] * len(couplings)) if mode != "mixed" else st.lists(st.booleans(), min_size=len(couplings), max_size=len(couplings)))),
         "objective": objective, "maximize": draw(st.integers(0, 3)) == 0,
         "constraints": constraints, "normalize": normalize, "mda": mda, "delta": delta,
         "perturbed_first": draw(st.booleans()), "jac_first": draw(st.booleans()),
